@@ -21,5 +21,20 @@ seeded = "\n".join(srows)
 t = open('/verif/DESIGN.md').read()
 t = re.sub(r'(<!-- FINDINGS-BEGIN -->).*?(<!-- FINDINGS-END -->)', lambda m: m.group(1) + "\n" + findings + "\n" + m.group(2), t, flags=re.S)
 t = re.sub(r'(<!-- SEEDED-BEGIN -->).*?(<!-- SEEDED-END -->)', lambda m: m.group(1) + "\n" + seeded + "\n" + m.group(2), t, flags=re.S)
+man = json.load(open('/verif/MANIFEST.json'))
+prow = ["| Property | Deciding method (MANIFEST.technique) | Last committed quick evidence |", "|---|---|---|"]
+for c in man['checks']:
+    pid = c['property_id']
+    ev = ''
+    try:
+        e = json.load(open(f'/verif/evidence/{pid}.json'))
+        cov = e['coverage']
+        ev = f"{cov['evaluations']:,} evaluations, {cov['distinct_nontrivial']:,} distinct non-trivial, {e['wall_s']:.0f} s ({e['tier']})"
+    except Exception:
+        pass
+    prow.append(f"| {pid} | {c.get('technique','').replace('|','/')} | {ev} |")
+for n in man.get('not_applicable', []):
+    prow.append(f"| {n['property_id']} | not claimed: {n['reason']} | |")
+t = re.sub(r'(<!-- PROPS-BEGIN -->).*?(<!-- PROPS-END -->)', lambda m: m.group(1) + "\n" + "\n".join(prow) + "\n" + m.group(2), t, flags=re.S)
 open('/verif/DESIGN.md', 'w').write(t)
 print("tables regenerated:", len(rows) - 2, "findings,", len(srows) - 2, "seeded changes")
